@@ -1,10 +1,71 @@
-(* C01 - theorems only (under construction: the enclosure lemmas per constructor follow). *)
-From Coq Require Import Reals List.
-From Sdfx Require Import Num.Ops Num.RInst Geo.Vec Geo.Box Geo.BoxR.
+(* C01 - bounding boxes enclose the solid: theorems only.
+   All statements are about the ROps (real number) instance of the model Sdf/Shape.v.
+   enc2/enc3 o: the stored box is ordered and every point with a negative value lies in it.
+   lbinf_*/lb2_*: outside the box the value is at least the max-norm / Euclidean distance to it. *)
+From Coq Require Import Reals List ZArith.
+From Sdfx Require Import Num.Ops Num.RInst Geo.Vec Geo.Box Geo.BoxR Geo.Mat Sdf.Shape Sdf.ShapeR
+  Sdf.EncloseR Sdf.EncloseComb Sdf.EncloseXform.
+Import ListNotations.
 Open Scope R_scope.
 
-(* the box returned by Extend contains both operands' boxes: used by every union-like constructor *)
-Theorem C01_placeholder_spec3 : forall b p, ordered3 b ->
-  (forall q, in_box3 b q -> fst (spec3_minmax b p) <= dist2_3 p q).
-Proof. intros b p H q Hq. destruct (spec3_is_distance_interval b p H) as (A & _). apply A. exact Hq. Qed.
-Print Assumptions C01_placeholder_spec3.
+(* ------------------------------------------------------------ primitives *)
+Theorem C01_circle : forall r o, @k_circle ROps r = Some o -> enc2 o /\ lb2_2 o.
+Proof. exact (fun r o H => conj (circle_enc r o H) (circle_lb2 r o H)). Qed.
+Print Assumptions C01_circle.
+
+(* Box2D does not validate: the box is ordered iff size >= 0 (any rounding) *)
+Theorem C01_box2 : forall size round o, 0 <= vx size -> 0 <= vy size ->
+  @k_box2 ROps size round = Some o -> enc2 o /\ lbinf_2 o.
+Proof. exact (fun size round o Hx Hy H => conj (box2_enc size round o Hx Hy H) (box2_lbinf size round o Hx Hy H)). Qed.
+Print Assumptions C01_box2.
+
+Theorem C01_line2 : forall l round o, 0 <= l -> 0 <= round ->
+  @k_line2 ROps l round = Some o -> enc2 o /\ lbinf_2 o.
+Proof. exact (fun l round o Hl Hr H => conj (line2_enc l round o Hl Hr H) (line2_lbinf l round o Hl Hr H)). Qed.
+Print Assumptions C01_line2.
+
+Theorem C01_sphere : forall r o, @k_sphere ROps r = Some o -> enc3 o /\ lb2_3 o.
+Proof. exact (fun r o H => conj (sphere_enc r o H) (sphere_lb2 r o H)). Qed.
+Print Assumptions C01_sphere.
+
+Theorem C01_box3 : forall size round o, @k_box3 ROps size round = Some o -> enc3 o /\ lbinf_3 o.
+Proof. exact (fun size round o H => conj (box3_enc size round o H) (box3_lbinf size round o H)). Qed.
+Print Assumptions C01_box3.
+
+Theorem C01_cylinder : forall h r round o, @k_cylinder ROps h r round = Some o -> enc3 o /\ lbinf_3 o.
+Proof. exact (fun h r round o H => conj (cylinder_enc h r round o H) (cylinder_lbinf h r round o H)). Qed.
+Print Assumptions C01_cylinder.
+
+(* ------------------------------------------------------------ unions (plain minimum) *)
+Theorem C01_union3 : forall l o, (forall x, In x l -> enc3 x) -> @k_union3 ROps MinDef l = Some o -> enc3 o.
+Proof. exact union3_enc. Qed.
+Print Assumptions C01_union3.
+Theorem C01_union2 : forall l o, (forall x, In x l -> enc2 x) -> @k_union2 ROps MinDef l = Some o -> enc2 o.
+Proof. exact union2_enc. Qed.
+Print Assumptions C01_union2.
+
+(* ------------------------------------------------------------ transforms *)
+Theorem C01_inverse33_correct : forall m p, affine33 m -> @m33_determinant ROps m <> 0 ->
+  @m33_mulposition ROps (@m33_inverse ROps m) (@m33_mulposition ROps m p) = p /\
+  @m33_mulposition ROps m (@m33_mulposition ROps (@m33_inverse ROps m) p) = p.
+Proof. exact (fun m p Ha Hd => conj (inverse33_correct m p Ha Hd) (inverse33_correct_r m p Ha Hd)). Qed.
+Print Assumptions C01_inverse33_correct.
+Theorem C01_inverse44_correct : forall m p, affine44 m -> @m44_determinant ROps m <> 0 ->
+  @m44_mulposition ROps (@m44_inverse ROps m) (@m44_mulposition ROps m p) = p /\
+  @m44_mulposition ROps m (@m44_mulposition ROps (@m44_inverse ROps m) p) = p.
+Proof. exact (fun m p Ha Hd => conj (inverse44_correct m p Ha Hd) (inverse44_correct_r m p Ha Hd)). Qed.
+Print Assumptions C01_inverse44_correct.
+Theorem C01_mulbox33_hull : forall m b q, in_box2 b q -> in_box2 (m33_mulbox m b) (@m33_mulposition ROps m q).
+Proof. exact mulbox33_hull. Qed.
+Print Assumptions C01_mulbox33_hull.
+Theorem C01_mulbox44_hull : forall m b q, in_box3 b q -> in_box3 (m44_mulbox m b) (@m44_mulposition ROps m q).
+Proof. exact mulbox44_hull. Qed.
+Print Assumptions C01_mulbox44_hull.
+Theorem C01_transform2 : forall s m o, affine33 m -> @m33_determinant ROps m <> 0 ->
+  @k_transform2 ROps s m = Some o -> enc2 s -> enc2 o.
+Proof. exact transform2_enc. Qed.
+Print Assumptions C01_transform2.
+Theorem C01_transform3 : forall s m o, affine44 m -> @m44_determinant ROps m <> 0 ->
+  @k_transform3 ROps s m = Some o -> enc3 s -> enc3 o.
+Proof. exact transform3_enc. Qed.
+Print Assumptions C01_transform3.
